@@ -287,6 +287,14 @@ def read_env(src, expr, skip_envs=(), tolerance=0, mode=MODE_NON_MATH):
         # parse ahead only when the command is an \end: parsing every command
         # twice doubles the work at each level of nesting
         if src.peek().category == TC.Escape and src.peek(1) == 'end':
+            # only a brace group (after at most one spacer) names the environment
+            # that ends: \end1 or \end\foo take no undelimited argument
+            after = src.peek(2)
+            if after is not None and after.category == TC.MergedSpacer:
+                after = src.peek(3)
+            if after is None or after.category != TC.GroupBegin:
+                args = None
+                break
             # read \end and its name ahead, and remember how many tokens
             # they take: not always five (\end{}, \end<newline>{a}, \end{\a})
             start = src.position
